@@ -52,12 +52,15 @@ TABLE['C02'] = dict(
     ])
 
 TABLE['C03'] = dict(
-    imports=[A + 'Assembly', A + 'Glue', A + 'Bridge', A + 'BridgeTwoLocus', A + 'RewardsThm'],
+    imports=[A + 'MeanIncrement', A + 'Assembly', A + 'Glue', A + 'Bridge', A + 'BridgeTwoLocus', A + 'RewardsThm'],
     summary='Proved: cdf of the code chain = cdf of the labelled chain (lump_cdf + bridges, one and two loci); cdf in [0,1] and '
             'non-decreasing along any extension of the factor list (from the four laws); the sorted sweep and `_update` are '
             'direct evaluation, also exactly on epoch boundaries; the bisection returns m with |F m - q| <= precision. '
             'Partial: integral of 1-cdf = mean (analysis), pdf (numerical differentiation), PT2.',
     theorems=[
+        ('mean_is_integral_of_survival', 'PG.mean_increment_eq_integral', 'for the real matrix exponential: mean(t + tau) - mean(t) = integral over [0, tau] of 1 - cdf(t + s), within any epoch after any history'),
+        ('van_loan_integral', 'PG.vanLoan_topRight_eq_integral', 'Van Loan (1978): block (0,1) of exp(tau V) is the integral of exp(sS) diag(r) exp((tau-s)S)'),
+        ('mean_increment', 'PG.accum_increment', 'from the four laws: the mean accumulated over a further piece of time depends only on the distribution at its start'),
         ('cdf_eq_labelled', 'PG.Assembly.C03_cdf_eq_labelled', 'HEADLINE: the cdf the code computes equals the absorption probability of the labelled coalescent'),
         ('cdf_eq_labelled_two_loci', 'PG.Assembly.C06_cdf_eq_labelled', 'same for two loci (ARG stopped at absorption)'),
         ('cdf_of_lumped_chain', 'PG.lump_cdf', 'intertwined generators have the same absorption probabilities'),
@@ -72,13 +75,15 @@ TABLE['C03'] = dict(
     ])
 
 TABLE['C04'] = dict(
-    imports=[A + 'Assembly', A + 'Bridge', A + 'BridgeBC', A + 'BridgeTwoLocus'],
+    imports=[A + 'DriverPath', A + 'Assembly', A + 'Bridge', A + 'BridgeBC', A + 'BridgeTwoLocus'],
     summary='Proved for every n, every number of demes, all rates (unbounded, subsuming the bound of the property): the three '
             'state spaces are exact lumpings of the labelled particle system (lineage counting and block counting for Kingman, '
             'Beta, Dirac; two loci for Kingman), BFS returns each reachable state once, closed under transitions, rate matrix '
             'rows represent the generator and sum to zero, rates are non-negative, absorbing states only migrate. The exact '
             'difference between the code and the unstopped ARG at absorbing two-locus states is QCs_absorbing. Partial: PT3.',
     theorems=[
+        ('driver_matrix', 'PG.denseGen_sparseRows', 'the dense generator the DRIVER builds equals rateEntry entry by entry'),
+        ('driver_matrix_is_codeMat', 'PG.codeMat_eq_denseGen_bfs', 'hence equals the matrices of the headline theorems'),
         ('all_sample_configs_visited', 'PG.Assembly.lineage_all_configs_visited', 'every count vector with the right total is a state'),
         ('alpha_is_indicator', 'PG.Assembly.lineage_alpha', 'alpha is concentrated on the state matching the sample'),
         ('visited_independent_of_epoch', 'PG.Assembly.visited_indep', 'one state list serves all epochs'),
@@ -99,13 +104,18 @@ TABLE['C04'] = dict(
     ])
 
 TABLE['C05'] = dict(
-    imports=[A + 'DemographyThm'],
+    imports=[A + 'DemographyMixed', A + 'DemographyThm'],
     summary='Proved on the code model of Demography.epochs: tiling of [0,inf), change times are boundaries, value in force for any '
             'number of discrete events (latest change wins, stable order on ties), lookup of get_epochs is pointwise, order '
             'independence (no conflicts), discretised endpoint mean, split orientation lemmas, and kernel-checked counterexamples '
             'for the three historic defects. Partial: schedules mixing discretised events with others are covered per step '
             '(nextEpoch) not as a whole; float ceil with non-dyadic steps.',
     theorems=[
+        ('mixed_value_in_force', 'PG.mixed_value_in_force_discrete', 'schedules mixing all event classes: keys only discrete events touch still follow the latest change'),
+        ('mixed_discretised_mean', 'PG.mixed_discretised_mean', 'schedules mixing all event classes: endpoint mean inside the window'),
+        ('mixed_terminates', 'PG.mixed_terminates', 'finite windows: the schedule ends with an infinite epoch after an explicit number of epochs and tiles [0, inf)'),
+        ('mixed_epoch_length', 'PG.mixed_epoch_length', 'inside a window no epoch is longer than one step (+1e-10)'),
+        ('mixed_grid_boundaries', 'PG.mixed_grid_boundaries_of_count', 'grid points are epoch starts'),
         ('tiling', 'PG.epochs_tiling', 'epochs tile [0, inf): first starts at 0, consecutive, only the last is infinite, non-empty'),
         ('tiling_WF', 'PG.epochs_WF', 'the schedule is a well-formed epoch list for the accumulation theorems'),
         ('change_times_are_boundaries', 'PG.change_time_is_boundary', 'every positive change time starts an epoch and nothing else does'),
@@ -164,12 +174,20 @@ TABLE['C07'] = dict(
     ])
 
 TABLE['C08'] = dict(
-    imports=[A + 'VanLoan', A + 'RewardsThm', A + 'Labelled'],
+    imports=[A + 'DemePerm', A + 'VanLoan', A + 'RewardsThm', A + 'Labelled'],
     summary='Proved: relabelling states by any bijection leaves every moment and cdf unchanged (perm_accum / perm_cdf, E_reindex); '
             'the labelled generator is invariant under permutation of particles; deme rewards sum to one. Equivariance of the code '
             'model `transit` under a permutation of the deme axis is exercised by the correspondence, not yet a theorem (partial); '
             'hash-seed independence is runtime (exploration).',
     theorems=[
+        ('moments_perm', 'PG.DemePerm.C08_moments_perm', 'HEADLINE: on the BFS graphs the code builds, listing the demes in a different order (sample vector, time scales, migration matrix permuted consistently) gives the same moment for rewards transported by name'),
+        ('cdf_perm', 'PG.DemePerm.C08_cdf_perm', 'same for the cdf'),
+        ('deme_marginals_perm', 'PG.DemePerm.C08_moments_deme', 'per-deme rewards addressed by the permuted axis index give the same moments'),
+        ('generator_equivariant', 'PG.DemePerm.lineage_equivariant', 'the lineage-counting generator commutes with relabelling of demes'),
+        ('generator_equivariant_block', 'PG.DemePerm.block_equivariant', 'the block-counting generator commutes with relabelling of demes'),
+        ('transit_equivariant', 'PG.DemePerm.transit_lineage_equivariant', 'the code model `transit` commutes with relabelling of demes'),
+        ('sfs_perm', 'PG.DemePerm.demePerm_moments_sfs', 'SFS rewards (sums over demes) are invariant'),
+        ('sorted_name_lookup_defect', 'PG.DemePerm.defect_counterexample', 'pre-fix DemeReward: looking the name up in the sorted list while the axis follows the sample dict returns the other deme'),
         ('relabel_moments', 'PG.perm_accum', 'moments are invariant under a bijective relabelling of states'),
         ('relabel_cdf', 'PG.perm_cdf', 'cdf likewise'),
         ('exp_reindex', 'PG.ExpLaw.E_reindex', 'the exponential commutes with reindexing'),
@@ -193,12 +211,13 @@ TABLE['C09'] = dict(
     ])
 
 TABLE['C10'] = dict(
-    imports=[A + 'Glue'],
+    imports=[A + 'MeanIncrement', A + 'Glue'],
     summary='Proved: redundant boundaries merge (E_add), the sweep over any grid equals direct evaluation (so refinement and the '
             'three end-time routes agree), durations of a direct evaluation are non-negative and sum to t, raw accumulation of '
             'non-negative rewards is non-decreasing, the horizon search either reaches p_absorption or must warn. '
             'Partial: the threshold 1 - 1e-15 itself is numeric.',
     theorems=[
+        ('additive_windows', 'PG.accum_increment', 'first moments are additive over adjacent windows: the increment over [a,b] is a function of the distribution at a'),
         ('redundant_boundary', 'PG.redundant_boundary', 'E(s V) E(t V) = E((s+t) V)'),
         ('zero_duration', 'PG.evalFactors_zero_duration', 'a zero-length piece contributes the identity'),
         ('grid_refinement', 'PG.code_accumulate_pointwise', 'any evaluation grid: every entry is the direct evaluation at its time'),
@@ -209,12 +228,22 @@ TABLE['C10'] = dict(
     ])
 
 TABLE['C11'] = dict(
-    imports=[A + 'RewardsThm', A + 'SampleConsistency', A + 'BridgeBC', A + 'Bridge'],
+    imports=[A + 'Conservation', A + 'RewardsThm', A + 'SampleConsistency', A + 'BridgeBC', A + 'Bridge'],
     summary='Proved: on every block-counting state of mass n the SFS rewards sum to the branch-length reward, the size-weighted sum is '
             'n times the height reward, folded = fold of unfolded; first moments are linear in the reward (so the identities pass to '
             'means). Second-order versions (covariances sum to the variance) follow from multilinearity, proved for k = 1 only so far '
             '(partial); agreement of lineage- and block-counting moments follows from both being lumpings of one labelled process.',
     theorems=[
+        ('spaces_agree', 'PG.Conservation.C11_spaces_agree', 'HEADLINE: all mixed moments of tree height and total branch length agree between the block-counting and the lineage-counting chain'),
+        ('block_to_lineage', 'PG.Conservation.block_to_lineage', 'forgetting block sizes is a strong lumping of the block-counting generator onto the lineage-counting generator (Vandermonde collapse)'),
+        ('sum_mean', 'PG.Conservation.C11_sum_mean', 'means of rewards that sum pointwise to a total sum to the mean of the total'),
+        ('sum_cov', 'PG.Conservation.C11_sum_cov', 'their covariances sum to the variance of the total'),
+        ('weighted', 'PG.Conservation.C11_weighted', 'weighted sums'),
+        ('fold', 'PG.Conservation.C11_fold', 'folded means'),
+        ('fold_cov', 'PG.Conservation.C11_fold_cov', 'folded covariances'),
+        ('multilinear', 'PG.Conservation.accumVal_slot_linear', 'every moment is linear in each reward slot (all orders k)'),
+        ('model_sum_mean', 'PG.Conservation.C11_model_sum_mean', 'instantiated with the model SFS / branch-length rewards'),
+        ('model_sum_cov', 'PG.Conservation.C11_model_sum_cov', 'instantiated: SFS covariances sum to the branch-length variance'),
         ('sum_sfs_eq_tbl', 'PG.sum_sfs_eq_tbl', 'sum of SFS rewards = total branch length reward'),
         ('weighted_sfs', 'PG.weighted_sfs_eq_n_height', 'size-weighted SFS rewards = n * tree height reward'),
         ('folded_is_fold', 'PG.folded_eq_fold', 'folded reward'),
@@ -225,11 +254,15 @@ TABLE['C11'] = dict(
     ])
 
 TABLE['C12'] = dict(
-    imports=[A + 'RewardsThm', A + 'SampleConsistency', A + 'Marginal', A + 'MomentsThm'],
+    imports=[A + 'DemePerm', A + 'Conservation', A + 'RewardsThm', A + 'SampleConsistency', A + 'Marginal', A + 'MomentsThm'],
     summary='Proved: deme rewards sum to one and product rewards decompose, per-locus branch rewards sum to the total, first moments are '
             'linear (means decompose), covariance is symmetric; a set of states that is never entered contributes nothing '
             '(accumVal_congr_closed). Partial: positive semi-definiteness needs the probabilistic representation PT1.',
     theorems=[
+        ('cov_sum', 'PG.Conservation.sum_cov', 'covariances of parts sum to the variance of the total'),
+        ('cov_bilinear', 'PG.Conservation.covVal_bilinear', 'covariance is bilinear over weighted finite sums'),
+        ('mean_transfer', 'PG.Conservation.mean_of_pointwise', 'any pointwise linear identity between rewards passes to means'),
+        ('cov_transfer', 'PG.Conservation.cov_of_pointwise', 'and to covariances'),
         ('deme_sum_one', 'PG.deme_rewards_sum_one', 'sum over demes of the deme reward is 1'),
         ('deme_product_decomposes', 'PG.deme_prod_sum', 'sum over demes of r * deme reward = r'),
         ('loci_sum', 'PG.tbl_eq_sum_tblLocus', 'per-locus branch lengths sum to the total'),
@@ -281,12 +314,16 @@ TABLE['C14'] = dict(
     ])
 
 TABLE['C15'] = dict(
-    imports=[A + 'MomentsThm', A + 'RewardsThm', A + 'SampleConsistency'],
+    imports=[A + 'RoutesThm', A + 'Conservation', A + 'MomentsThm', A + 'RewardsThm', A + 'SampleConsistency'],
     summary='Proved: centring = binomial / inclusion-exclusion combination of raw moments = central moment of any linear expectation '
             '(all k), explicit k = 2, 3; permutation averaging makes cross moments symmetric (all permutations); additivity in each '
             'reward slot; unit reward neutral in products; covariance assembly symmetric. Routes: cached properties, dist.moment and '
             'Coalescent.moment all unfold to accumulateModel of the same raw function (model level). Partial: PSD (needs PT1).',
     theorems=[
+        ('multilinear', 'PG.Conservation.accumVal_slot_linear', 'moments are linear in every reward slot (SumReward / scalar ProductReward act linearly), all k'),
+        ('memo_keys_injective', 'PG.Reward.keys_injective', 'two different reward tuples never share a memoisation key (key = class name + parameters, as in Reward.__hash__)'),
+        ('state_space_choice', 'PG.chooseSpace_lineageCounting', 'if _get_dist picks the lineage-counting space every reward of the tuple only depends on lineage counts'),
+        ('lc_rewards_ignore_blocks', 'PG.eval_of_supportsLC', 'rewards supporting lineage counting give the same value on block states with the same lineage counts'),
         ('centering', 'PG.accumulate_center_eq', 'accumulate(center=True) = sum over subsets'),
         ('central_moment', 'PG.accumulate_center_eq_central_moment', '= E prod (X_j - mu_j)'),
         ('variance', 'PG.accumulate_variance', 'var = m2 - mean^2'),
@@ -300,13 +337,18 @@ TABLE['C15'] = dict(
     ])
 
 TABLE['C16'] = dict(
-    imports=[A + 'MutConfig'],
+    imports=[A + 'DriverPath', A + 'MutConfig'],
     summary='Proved exactly over any field, unbounded n: the matrix the code inverts, sum of P_i = P_total, words of length m sum to '
             'P_total^m and regroup by configuration through distinct orderings, total mass of <= M mutations = 1 - alpha P_total^(M+1) 1, '
             'empty configuration = resolvent form of the Laplace transform, expected counts = theta times expected SFS, first-step '
             'recursion, `_unfold` lists exactly the unfoldings, `_get_partitions` and the distinct-orderings spec. Partial: '
             'non-negativity of the resolvent (M-matrix), PT4.',
     theorems=[
+        ('executable_getP', 'PG.getP_spec', 'the EXECUTABLE getP (certified Gauss-Jordan inverse) returns the matrices of the theorems'),
+        ('executable_resolvent', 'PG.getP_resolvent', 'and provides the resolvent hypotheses of the C16 theorems'),
+        ('executable_prob', 'PG.mutConfigProb_spec', 'the EXECUTABLE mutConfigProb the driver prints is alpha . (sum over distinct orderings) . p_total'),
+        ('executable_mass', 'PG.mutConfigProb_mass', 'so the printed probabilities of all configurations with m mutations sum to alpha P_total^m p_total'),
+        ('executable_empty', 'PG.mutConfigProb_empty', 'and the printed empty-configuration probability is the resolvent form'),
         ('code_matrix_left', 'PG.C16_code_mul_Ptot', 'P_total is the right inverse of the matrix the code builds'),
         ('code_matrix_right', 'PG.C16_Ptot_mul_code', 'and the left inverse'),
         ('P_total', 'PG.C16_Ptotal', 'sum_i P_i = P_total'),
